@@ -269,8 +269,16 @@ func (r *Rig) Advance(k *Keyper) {
 		k.client.Wait = k.wait
 		k.Trace.Steps++
 		go func() {
-			err := k.stepBody(ctx)
-			k.yield <- yieldMsg{done: true, err: err}
+			// a panic in the keyper's loop body ends the process; the supervisor starts it again (Restart below)
+			var err error
+			defer func() {
+				if rec := recover(); rec != nil {
+					err = fmt.Errorf("keyper process died: panic: %v", rec)
+					k.Trace.Panics++
+				}
+				k.yield <- yieldMsg{done: true, err: err}
+			}()
+			err = k.stepBody(ctx)
 		}()
 	} else {
 		if k.waiting == nil || !k.waiting.Settled() {
